@@ -23,12 +23,12 @@ Requirements for the change:
  2. It must be small (typically 1-15 changed lines), look innocent, and must not touch the tests.
  3. The existing test suite must still pass with it. Build and run it like this:
       cd {wt} && cmake -G Ninja -B _build -DCMAKE_BUILD_TYPE=RelWithDebInfo -DCMAKE_CXX_FLAGS=-Wno-error . >/dev/null && cmake --build _build -j6 2>&1 | tail -3
-      for t in ondriks_mtbdd_c_test timbuk_parser_test bdd_bu_tree_aut_test bdd_td_tree_aut_test explicit_tree_aut_test; do _build/unit_tests/$t --log_level=test_suite 2>&1 | grep -E "error|No errors"; done
+      for t in ondriks_mtbdd_c_test timbuk_parser_test bdd_bu_tree_aut_test bdd_td_tree_aut_test explicit_tree_aut_test; do (cd _build/unit_tests && ./$t --log_level=test_suite) 2>&1 | grep -E "error|No errors"; done
     NOTE: on the UNCHANGED tree exactly two cases of bdd_bu_tree_aut_test already fail (suite/aut_down_inclusion_rec_nosim and suite/aut_down_inclusion_opt_rec_nosim, both with NotImplementedException); every other case passes. Your change must leave exactly this picture. (A full build takes 1-2 minutes; the bdd_bu test ~20 s.)
  4. Write a DEMONSTRATION: a small stand-alone C++ program (demo.cc) using the library's public API (or internal headers under src/ if needed) that exits 0 / prints PASS on the unchanged tree and exits non-zero / prints FAIL with your change applied, because the property is violated. Compile it against the built static library, e.g.
       g++ -std=c++11 -DNDEBUG -I{wt}/include -I{wt} demo.cc {wt}/_build/src/libvata.a -o demo
     (the library is built with NDEBUG in RelWithDebInfo, so asserts are off - do not rely on assertions firing).
-    Verify BOTH directions yourself: with the change (FAIL) and with the change reverted via `git stash` / `git checkout` + rebuild (PASS).
+    Verify BOTH directions yourself: with the change (FAIL) and with the change reverted (save it with `git diff > /tmp/<your-worktree-name>.diff`, `git checkout -- src include cli`, rebuild: PASS; then `git apply` it again). Do NOT use `git stash` (the stash is shared between worktrees).
  5. When done, create the directory {wt}/MUTANT containing:
       patch.diff   - output of `git diff` for your change (library sources only)
       demo.cc      - the demonstration, with the exact compile/run command in a comment at the top
